@@ -318,3 +318,91 @@ theorem read_file (T : Tables) (audit deny owner : Bool) (p : Text) (acc : List 
   simp only [readQual_fileWords audit deny owner p [acc.flatten] hp, readBody_file T _ p _ hp hpt]
 
 end Ref
+
+namespace Ref
+open Aa
+
+/-! ### network rules: every domain with every type -/
+
+def netRule (audit deny : Bool) (d t : Text) : Rule :=
+  { kind := "network", audit := audit, accessType := if deny then S "deny" else [],
+    flds := [.s [], .s [], .s [], .s d, .s t, .s []] }
+
+theorem render_network (audit deny : Bool) (d t : Text) (hd : d ≠ []) (ht : t ≠ []) :
+    renderRule (netRule audit deny d t) (padOf []) = joinB (qualWords audit deny ++ [S "network", d, t]) ++ [','] := by
+  have hd' : d.isEmpty = false := by cases d <;> simp_all
+  have ht' : t.isEmpty = false := by cases t <;> simp_all
+  cases audit <;> cases deny <;>
+    simp [renderRule, netRule, renderQual, renderComment, padOf, qualWords, fS, Rule.fld, Fld.str, S, joinB, withS, hd', ht']
+
+theorem readBody_network2 (T : Tables) (q : Q) (d t : Text) :
+    readBody T q [S "network", d, t] =
+      if q.owner then none
+      else if !(reqValues T "network" "domains").contains d then none
+      else if (reqValues T "network" "type").contains t then some (mkR "network" q [.s [], .s [], .s [], .s d, .s t, .s []])
+      else if (reqValues T "network" "protocol").contains t then some (mkR "network" q [.s [], .s [], .s [], .s d, .s [], .s t])
+      else none := by
+  unfold readBody
+  have h1 : (S "network" == S "capability") = false := by decide
+  have h2 : (S "network" == S "network") = true := by decide
+  simp only [h1, h2, Bool.false_eq_true, if_false, if_true]
+
+theorem readQual_qualWords (audit deny : Bool) (w : Text) (rest : List Text)
+    (h1 : (w == S "audit") = false) (h2 : (w == S "deny") = false) (h3 : (w == S "allow") = false) (h4 : (w == S "owner") = false) :
+    readQual 5 {} (qualWords audit deny ++ w :: rest) = some ({ audit := audit, deny := deny, owner := false }, w :: rest) := by
+  have stop : ∀ (f : Nat) (q : Q), readQual (f + 1) q (w :: rest) = some (q, w :: rest) := by
+    intro f q; simp [readQual, h1, h2, h3, h4]
+  cases audit <;> cases deny <;>
+    simp only [qualWords, if_true, if_false, Bool.false_eq_true, List.nil_append, List.cons_append, List.append_nil,
+      readQual_audit, readQual_deny, stop]
+
+/-- **The reference reader on a printed network rule**: every qualifier, every domain of the table with
+every socket type of the table. -/
+theorem read_network (T : Tables) (audit deny : Bool) (d t : Text)
+    (hd : SimpleW d ∧ '#' ∉ d ∧ d.getLast? ≠ some ',') (ht : SimpleW t ∧ '#' ∉ t ∧ t.getLast? ≠ some ',')
+    (hdm : (reqValues T "network" "domains").contains d = true) (htm : (reqValues T "network" "type").contains t = true) :
+    read T (renderRule (netRule audit deny d t) (padOf [])) =
+      some (mkR "network" { audit := audit, deny := deny, owner := false } [.s [], .s [], .s [], .s d, .s t, .s []]) := by
+  rw [render_network audit deny d t hd.1.1 ht.1.1]
+  have hws : ∀ w ∈ qualWords audit deny ++ [S "network", d, t], SimpleW w ∧ '#' ∉ w ∧ w.getLast? ≠ some ',' := by
+    intro w hw
+    rw [List.mem_append] at hw
+    rcases hw with hw | hw
+    · cases audit <;> cases deny <;> simp [qualWords] at hw
+      all_goals (first | (rcases hw with rfl | rfl) | subst hw) <;> exact ⟨⟨by decide, by decide⟩, by decide, by decide⟩
+    · simp only [List.mem_cons, List.not_mem_nil, or_false] at hw
+      rcases hw with rfl | rfl | rfl
+      · exact ⟨⟨by decide, by decide⟩, by decide, by decide⟩
+      · exact hd
+      · exact ht
+  have hne : qualWords audit deny ++ [S "network", d, t] ≠ [] := by simp
+  have hnh : '#' ∉ joinB (qualWords audit deny ++ [S "network", d, t]) ++ [','] := by
+    generalize qualWords audit deny ++ [S "network", d, t] = ws at hws
+    intro hmem
+    rw [List.mem_append] at hmem
+    rcases hmem with hmem | hmem
+    · induction ws with
+      | nil => simp [joinB] at hmem
+      | cons a l ih =>
+        cases l with
+        | nil => exact (hws a (by simp)).2.1 (by simpa [joinB] using hmem)
+        | cons b l' =>
+          simp only [joinB, List.mem_append, List.mem_cons] at hmem
+          rcases hmem with h | h | h
+          · exact (hws a (by simp)).2.1 h
+          · cases h
+          · exact ih (fun w hw => hws w (by simp [hw])) h
+    · simp at hmem
+  unfold read
+  simp only [stripComment_nohash _ hnh, trimR_comma, List.getLast?_append, List.getLast?_singleton, Option.some_or,
+    List.dropLast_concat]
+  rw [words_joinB' _ hne (fun w hw => (hws w hw).1)]
+  have hnc : (qualWords audit deny ++ [S "network", d, t]).any (fun w => w.getLast? == some ',') = false := by
+    rw [List.any_eq_false]
+    intro w hw
+    simpa using (hws w hw).2.2
+  simp only [hnc, Bool.false_eq_true, if_false]
+  rw [readQual_qualWords audit deny (S "network") [d, t] (by decide) (by decide) (by decide) (by decide)]
+  simp only [readBody_network2, hdm, htm, Bool.not_true, Bool.false_eq_true, if_false, if_true]
+
+end Ref
